@@ -409,6 +409,9 @@ package litefs
 //@   on call GuardSet.Unlock assert arg0 == gs && !unlocked ; then unlocked = true
 //@   loop 1 modifies contents(walFrameOffsets)
 //@   loop 1 invariant walFrameOffsets != nil
+// the copy of the WAL page index is complete (key set of the map range)
+//@   loop 1 invariant forall p uint32 :: visited(1, p) ==> has(walFrameOffsets, p)
+//@   loop 2 invariant forall p uint32 :: has(db.wal.frameOffsets, p) ==> has(walFrameOffsets, p) [C10,C16]
 //@   loop 2 modifies contents(pageData), sought, readok, written
 //@   thorough  Export/loop2/frame/F:os.File
 //@   loop 2 invariant sampled && !sought && !readok && !unlocked && exportReadLocks(gs) && dbFile != nil && len(pageData) == int(pageSize)
